@@ -26,6 +26,9 @@ import (
 type callSpec struct {
 	SubMsg bool `json:"substitute_message"`
 	Mark   bool `json:"derive_context"`
+	// Detach: the context passed on is not derived from the one received (built from context.Background(), carrying
+	// the same values): it is still "the context passed on by the predecessor"
+	Detach bool `json:"detached_context,omitempty"`
 }
 type stageProg struct {
 	Calls []callSpec `json:"calls"`
@@ -175,6 +178,9 @@ func runStage(p stageProg, stage int, ctx context.Context, msg string, call func
 		cctx := ctx
 		if c.Mark {
 			cctx = context.WithValue(ctx, marksKey{}, append(append([]string{}, marks...), fmt.Sprintf("s%dc%d", stage, j)))
+		}
+		if c.Detach {
+			cctx = context.WithValue(context.WithValue(context.Background(), traceKey{}, tr), marksKey{}, marksOf(cctx))
 		}
 		r := call(cctx, mm)
 		tr.add("back(%d,%d|%s)", stage, j, r)
@@ -575,7 +581,7 @@ func c19NonTrivial(c c19Case) bool {
 func TestC19Chains(t *testing.T) {
 	const name = "TestC19Chains"
 	rec := evid.New("C19", name, "chains of 0..4 stages for the client Roundtrip chain, the server message chain and the server batch-item chain; each stage is a generated program: call the continuation 0..3 times, "+
-		"per call pass on the received or a substituted message and the received or a derived context, return the last/first result, a substituted result or an error; 1..4 concurrent requests share the chain; "+
+		"per call pass on the received or a substituted message and the received, a derived or a detached (not derived from the received one) context, return the last/first result, a substituted result or an error; 1..4 concurrent requests share the chain; "+
 		"oracle: a recursive interpreter of the same programs predicts the exact event trace (stage entries with message and context, core executions, results seen) and the caller's result; "+
 		"non-trivial = a non-last stage calls the continuation >= 2 times, or a message is substituted; distinct by case").Attach(t)
 	if rp := evid.LoadReplay(name); rp != nil {
@@ -605,7 +611,7 @@ func TestC19Chains(t *testing.T) {
 			var p stageProg
 			k := rapid.SampledFrom([]int{1, 1, 1, 0, 2, 2, 3}).Draw(rt, "calls")
 			for j := 0; j < k; j++ {
-				p.Calls = append(p.Calls, callSpec{SubMsg: rapid.IntRange(0, 3).Draw(rt, "submsg") == 0, Mark: rapid.Bool().Draw(rt, "mark")})
+				p.Calls = append(p.Calls, callSpec{SubMsg: rapid.IntRange(0, 3).Draw(rt, "submsg") == 0, Mark: rapid.Bool().Draw(rt, "mark"), Detach: rapid.IntRange(0, 4).Draw(rt, "detach") == 0})
 			}
 			p.Ret = rapid.SampledFrom([]string{"last", "last", "last", "first", "substitute", "error"}).Draw(rt, "ret")
 			c.Stages = append(c.Stages, p)
